@@ -189,6 +189,7 @@ class Program:
         self.consts = {c["path"]: c for c in j["consts"]}
         self._cg = None
         self.const_ranges = None   # def path -> (min, max) of literal tables; filled by sa/oblrules.py
+        self.const_lens = {}       # def path -> number of elements of literal array consts
 
     def body(self, path):
         r = self.by_path.get(path, [])
